@@ -61,15 +61,10 @@ CLAIMED = {
     ),
     "C13": dict(
         category="translation_validation",
-        text="Round-trip validation per document: the real code exports each generated routine (uncompiled and compiled), the export "
-             "is reloaded through the pydantic schema, re-imported and re-compiled, and each pair is compared inside Coq for equal "
-             "structure (names, nesting, types, ports, connections, links incl. multi-level targets, repetition kind and fields) and "
-             "mathematically equal expressions at rational points. Small closed lemmas cover the dotted-name split on which deep "
-             "links rest. This is validation of each translated document, not a theorem over all documents: a Gallina model of "
-             "to_qref/from_qref would mostly restate pydantic field plumbing; the one recorded finding (F13) is pinned in the corpus.",
+        text="Round-trip validation per document: the real code exports each generated routine (uncompiled and compiled), the export is reloaded through the pydantic schema, re-imported and re-compiled, and each pair is compared inside Coq for equal structure (names, nesting, types, ports, connections, links incl. multi-level targets, repetition kind and fields) and mathematically equal expressions at rational points. Closed theorems cover the NAMING LAYER of the format for every hierarchy: the model of the import applied to the model of the export gives the routine back (endpoints child.port, link targets path.to.child.param split at the last dot, children), malformed names are refused rather than misread; the model's export is tied to the real exporter on every case (the connection and link strings of the real document must be exactly the model's and the model's import must read them). The other fields (expression text, sequence fields, pydantic plumbing) are validated per document, which is why the level stays translation validation; finding F13 is pinned in the corpus.",
         design_ref="DESIGN.md section 5 C13",
         note="Trusted: pydantic/qref schema validation; expression text round trip is C12's subject (expressions compared by value here).",
-        technique="differential round-trip validation with semantic comparison inside Coq (vm_compute) + Coq string lemmas",
+        technique="differential round-trip validation with semantic comparison inside Coq (vm_compute) + Coq proof of the export/import round trip for the naming layer",
     ),
     "C14": dict(
         category="other",
